@@ -1,10 +1,270 @@
-"""Properties decided by Engine B (symx).  Filled in as the engine lands."""
-PROPS = {}
+"""Properties decided by Engine B (symx): symbolic execution of the macro-generated code, z3 verdict per
+program over all input databases within the bound, native replay of every counterexample."""
+import os, sys, time, json, random, traceback, hashlib
+from concurrent.futures import ProcessPoolExecutor, as_completed
+from . import common as C
+
+sys.path.insert(0, C.VERIF)
+
+LEVEL = "translation_validation"
+
+TRUSTED = ["rustc nightly macro expansion + pretty printer (-Zunpretty=expanded)", "syn 2 (tools/rs2json)",
+           "symx interpreter + index contract (symx/models.py; the contract is what C19 checks for the real serial index types)",
+           "z3 4.x QF_FD (SAT + pseudo-boolean) solver", "reference semantics symx/lang.py (oracle, written from the documentation)"]
+
+ASSUME = [
+    "programs are a finite corpus (curated + seeded random); per program the solver decides ALL input databases over the stated universe — nothing is claimed about programs outside the corpus",
+    "index types, RelIndexMerge and RelIndexCombined are replaced by their contract (multimap / set semantics, merge = total+=delta, delta=new, new=empty, len_estimate = number of keys)",
+    "iteration order inside one rule evaluation is the insertion order of the model (matters only for lattice rows mutated in place)",
+    "aggregator functions are replaced by their mathematical definition (the real ones are decided by C17)",
+    "Lattice::join_mut is replaced by the mathematical join of the value's type (the real impls are decided by C16)",
+    "counterexamples are reported only after replay on the natively compiled real program (real hash tables)",
+]
+
+
+def _progs_for(prop, tier, seed):
+    """-> list of job specs: dict(prog=Program, scenario=dict(kind=..., ...), kinds=[query kinds that count], tag=str)"""
+    from symx import gen
+    q = tier == "quick"
+    jobs = []
+
+    def add(progs, kind, kinds, **kw):
+        for p in progs:
+            jobs.append({"prog": p, "scenario": dict(kind=kind, **kw), "kinds": kinds})
+
+    if prop == "C01":
+        progs = gen.c01_curated() + gen.random_programs(1000 + seed, 10, max_arity=2, max_body=2)
+        if not q:
+            progs += gen.random_programs(1500 + seed, 40, prefix="rndb", max_arity=2, max_body=3)
+            progs += gen.random_programs(1700 + seed, 10, prefix="rndc", max_arity=3, max_body=2)
+        add(progs, "run", ["mismatch", "nonterm", "panic"])
+    elif prop == "C05":
+        progs = gen.c01_curated() + gen.random_programs(2000 + seed, 4 if q else 30)
+        add(progs, "run", ["duplicate", "mismatch", "nonterm", "panic"], dup=True)
+        add(gen.c03_curated(), "run", ["duplicate", "nonterm", "panic"])
+    elif prop == "C03":
+        add(gen.c03_curated(), "run", ["mismatch", "duplicate", "nonterm", "panic"])
+    elif prop == "C04":
+        add(gen.c04_curated(), "run", ["mismatch", "nonterm", "panic"])
+    elif prop == "C13":
+        base = gen.c01_curated() + gen.c03_curated() + gen.c04_curated()
+        add(base, "rerun", ["mismatch", "nonterm", "panic"])
+        pos = gen.c01_curated() + gen.c03_curated()
+        add(pos, "push", ["mismatch", "nonterm", "panic"])
+    elif prop == "C14":
+        base = gen.c01_curated() + gen.c04_curated()
+        sel = base if not q else [p for p in base if p.name in ("tc", "two_strata", "mutual3", "facts_multihead", "agg_chain", "agg_over_recursive", "consts_repeats", "generators")]
+        for p in sel:
+            p.attrs.append("generate_run_timeout")
+            p.name = p.name + "__rt"
+        add(sel, "timeout", ["mismatch", "nonterm", "panic"])
+    else:
+        raise KeyError(prop)
+    # unique module names
+    seen = {}
+    for j in jobs:
+        p = j["prog"]
+        if p.name in seen and seen[p.name] is not p:
+            raise RuntimeError("duplicate program name " + p.name)
+        seen[p.name] = p
+    return jobs, list(seen.values())
+
+
+PROPS = {
+    "C01": {"title": "run() computes the least model", "design_ref": "DESIGN.md §5 C01"},
+    "C03": {"title": "lattice relations: one row per key, least fixed point", "design_ref": "DESIGN.md §5 C03"},
+    "C04": {"title": "negation / aggregation see the complete relation once", "design_ref": "DESIGN.md §5 C04"},
+    "C05": {"title": "relations are sets (serial half)", "design_ref": "DESIGN.md §5 C05"},
+    "C13": {"title": "run() idempotent, monotone re-runs equal a fresh run", "design_ref": "DESIGN.md §5 C13"},
+    "C14": {"title": "run_timeout stops in a sound, resumable state", "design_ref": "DESIGN.md §5 C14"},
+}
+
+_WORK = {}
+
+
+def _worker(args):
+    """runs in a pool process: one (program, scenario) job"""
+    corpus_dir, pname, jidx, tier, prop, seed = args
+    import random as _r
+    from symx import corpus as Cp, driver as Dr, scenario as Sc, checker as Ck
+    from symx.values import Unsupported
+    t0 = time.time()
+    try:
+        st = _WORK.get((prop, tier, seed))
+        if st is None:
+            jobs, progs = _progs_for(prop, tier, seed)
+            cp = Cp.Corpus("%s-%s" % (prop, tier), progs)
+            cp.dir = corpus_dir
+            cp.bin = os.path.join(corpus_dir, "corpus-run")
+            cp.json = os.path.join(corpus_dir, "expanded.json")
+            st = _WORK[(prop, tier, seed)] = (jobs, cp, {})
+        jobs, cp, cache = st
+        job = jobs[jidx]
+        prog = job["prog"]
+        with open(os.path.join(corpus_dir, "mods", prog.name + ".json")) as f:
+            mod = json.load(f)
+        sc = Sc.Scenario(**job["scenario"])
+        sc.kinds = job["kinds"]
+        V = 3 if tier == "quick" else 12
+        out = Ck.check_program(cp, mod, prog, sc, _r.Random(seed * 7919 + jidx), V=V)
+        res = {"program": prog.name, "scenario": sc.describe(), "status": out.status, "detail": out.detail,
+               "queries": [{"name": x.name, "kind": x.kind, "verdict": x.verdict, "solver_s": x.time} for x in out.queries],
+               "validated": out.validated, "stats": out.stats, "cex": out.cex, "replay": out.replay, "wall_s": round(time.time() - t0, 2)}
+        return jidx, res
+    except Exception as e:
+        return jidx, {"program": pname, "status": "inconclusive", "detail": "internal error: %s\n%s" % (e, traceback.format_exc()[-1500:]),
+                      "queries": [], "validated": 0, "stats": {}, "cex": None, "replay": None, "wall_s": round(time.time() - t0, 2),
+                      "scenario": {}}
+
+
+def role_of(prop, job, res):
+    """describe a counterexample by role (property, scenario, kind of failure, program features)"""
+    from symx import lang as L
+    p = job["prog"]
+    feats = program_features(p)
+    kinds = sorted({k for k, _ in (res.get("replay") or {}).get("problems", [])})
+    return {"scenario": job["scenario"]["kind"], "failure": kinds[0] if kinds else "?", "dup_inputs": bool(job["scenario"].get("dup")),
+            "multiplicity_sensitive_agg": feats["msagg"], "agg_over_lattice_value": feats["agg_lat_val"],
+            "has_lattice": feats["lattice"], "has_agg": feats["agg"]}
+
+
+def program_features(p):
+    from symx import lang as L
+    rules = L.core_rules(p)
+    msagg = agg = agg_lat_val = False
+    for h, b in rules:
+        for it in b:
+            if isinstance(it, L.Agg):
+                agg = True
+                if it.agg in ("count", "sum", "mean"):
+                    msagg = True
+            if isinstance(it, (L.Agg, L.Neg)) and p.relmap[it.rel].lattice:
+                last = it.args[-1]
+                if not isinstance(last, L.Wild) and not (isinstance(last, L.V) and isinstance(it, L.Agg) and last.n in it.bound):
+                    agg_lat_val = True
+    return {"msagg": msagg, "agg": agg, "agg_lat_val": agg_lat_val, "lattice": any(r.lattice for r in p.relmap.values())}
 
 
 def check(prop, tier, only=None):
-    return 2
+    from symx import corpus as Cp, lang as L
+    t0 = time.time()
+    seed = C.seed()
+    jobs, progs = _progs_for(prop, tier, seed)
+    if only:
+        keep = [i for i, j in enumerate(jobs) if only in j["prog"].name]
+    else:
+        keep = list(range(len(jobs)))
+    cp = Cp.Corpus("%s-%s" % (prop, tier), progs)
+    inconclusive, violations, known = [], [], []
+    try:
+        cp.build()
+        split_modules(cp)
+    except Exception as e:
+        inconclusive.append("corpus build / expansion failed: %s" % str(e)[-1500:])
+        cov = {"programs": max(len(progs), 1), "disagreements_checked": 0, "samples": [{"note": "corpus did not build"}],
+               "explanation": inconclusive[0][:500]}
+        C.write_evidence(prop, tier, LEVEL, cov, ASSUME, time.time() - t0)
+        return C.finish(prop, [], [], inconclusive)
+    results = {}
+    workers = min(14, max(1, len(keep)))
+    with ProcessPoolExecutor(max_workers=workers) as ex:
+        futs = [ex.submit(_worker, (cp.dir, jobs[i]["prog"].name, i, tier, prop, seed)) for i in keep]
+        for f in as_completed(futs):
+            i, res = f.result()
+            results[i] = res
+    samples, nq, nunsat, solver_s, validated = [], 0, 0, 0.0, 0
+    nontrivial = 0
+    for i in keep:
+        res, job = results[i], jobs[i]
+        kinds = job["kinds"]
+        qs = res["queries"]
+        nq += len(qs)
+        nunsat += sum(1 for x in qs if x["verdict"] == "unsat")
+        solver_s += sum(x["solver_s"] or 0 for x in qs) + (res["stats"].get("unroll_solver_s") or 0)
+        validated += res["validated"]
+        st = res["status"]
+        if st == "ok":
+            rf = res["stats"].get("rules_fireable", [0, 0])
+            if res["stats"].get("input_vars", 0) > 0 and rf[0] > 0:
+                nontrivial += 1
+        elif st == "violation":
+            probs = (res.get("replay") or {}).get("problems", [])
+            relevant = [pr for pr in probs if pr[0] in kinds]
+            if not relevant:
+                # a reproduced defect of a kind this property does not speak about: not this property's alarm
+                res["status"] = "ok"
+                res["detail"] = "(other-property finding ignored here: %s)" % res["detail"][:200]
+            else:
+                role = role_of(prop, job, res)
+                res["role"] = role
+                rp = C.save_replay(prop, "%s-%s.json" % (res["program"], job["scenario"]["kind"]),
+                                   json.dumps({"property": prop, "program": res["program"], "program_text": L.program_rs(job["prog"]),
+                                               "scenario": res["scenario"], "counterexample": res["cex"], "replay": res["replay"], "role": role}, indent=1, default=str))
+                kf = C.match_known(prop, role)
+                if kf:
+                    known.append("%s [program %s, scenario %s]" % (kf["key"], res["program"], job["scenario"]["kind"]))
+                else:
+                    violations.append(rp)
+        else:
+            inconclusive.append("%s/%s: %s" % (res["program"], job["scenario"].get("kind"), res["detail"][:400]))
+        if len(samples) < 5 or st != "ok":
+            if len(samples) < 12:
+                samples.append({"program": res["program"], "text": L.program_rs(job["prog"]), "scenario": res["scenario"], "status": res["status"],
+                                "queries": qs, "stats": res["stats"], "validated_dbs": res["validated"], "detail": res["detail"][:300]})
+    known = sorted(set(known))
+    cov = {
+        "programs": len(keep),
+        "disagreements_checked": validated,
+        "samples": samples,
+        "evaluations": nq,
+        "distinct_nontrivial": nontrivial,
+        "rule": "one (program, scenario) job = symbolic execution of the expanded code + oracle + z3 queries over ALL input databases of the universe; non-trivial = decided 'ok' with at least one symbolic input variable",
+        "obligations": nq, "discharged": nunsat,
+        "checker_cmd": "./check.py %s --tier %s" % (prop, tier),
+        "trusted_base": TRUSTED,
+        "functions_encoded": ["<Program>::run / run_timeout / update_indices_priv / Default::default as generated by ascent_macro for every corpus program (expanded text, regenerated from /repo on every run)"],
+        "bounds": "universe D=3 constants per input column; all 2^n input databases (n = input_vars per program, see samples); fixpoint loops unrolled adaptively until the solver proves no database reaches the next iteration (K_max=12, otherwise an unwinding obligation is reported); row multiplicity <= MAXM (2..4, overflow obligation discharged by the solver)",
+        "solver_time_s": round(solver_s, 2),
+        "solvers": ["z3 (python API, SolverFor('QF_FD'))"],
+        "corpus_build": cp.stats,
+        "repo_fingerprint": C.repo_fingerprint(),
+        "exhaustive": False,
+        "inconclusive": inconclusive[:20],
+        "known_findings_hit": known,
+        "jobs": [{"program": results[i]["program"], "scenario": jobs[i]["scenario"]["kind"], "status": results[i]["status"],
+                  "input_vars": results[i]["stats"].get("input_vars"), "steps": results[i]["stats"].get("steps"),
+                  "loop_iters": results[i]["stats"].get("loop_iters"), "rules_fireable": results[i]["stats"].get("rules_fireable"),
+                  "validated_dbs": results[i]["validated"], "wall_s": results[i]["wall_s"]} for i in keep],
+    }
+    C.write_evidence(prop, tier, LEVEL, cov, ASSUME, time.time() - t0, violations=len(violations))
+    print("%s %s: %d jobs, %d queries (%d unsat), %d validated DBs, %d known, %d violations, %d inconclusive, wall %.1fs" % (
+        prop, tier, len(keep), nq, nunsat, validated, len(known), len(violations), len(inconclusive), time.time() - t0))
+    return C.finish(prop, violations, known, inconclusive)
+
+
+def split_modules(cp):
+    d = os.path.join(cp.dir, "mods")
+    stamp = os.path.join(d, ".stamp")
+    src_m = os.path.getmtime(cp.json)
+    if os.path.exists(stamp) and os.path.getmtime(stamp) >= src_m:
+        return
+    os.makedirs(d, exist_ok=True)
+    ast = cp.load_ast()
+    for it in ast["items"]:
+        if it["k"] == "mod" and it.get("items") is not None:
+            with open(os.path.join(d, it["name"] + ".json"), "w") as f:
+                json.dump(it, f)
+    with open(stamp, "w") as f:
+        f.write("ok")
 
 
 def replay(prop, path):
-    return 2
+    """re-run a saved counterexample on the natively compiled real program"""
+    from symx import corpus as Cp
+    rec = json.load(open(path))
+    print(json.dumps({k: rec[k] for k in ("property", "program", "scenario", "counterexample")}, indent=1, default=str))
+    print("program text:\n   " + rec["program_text"])
+    print("script:\n  " + "\n  ".join(rec["replay"]["script"]))
+    print("native output at the time:\n" + str(rec["replay"].get("native_output")))
+    print("expected (least model):", rec["replay"].get("expected"))
+    return 0
